@@ -1,7 +1,7 @@
 //! vh-frozen: serve format requests against the frozen (pinned) rustfmt sources.
 //! Protocol (one JSON object per line on stdin, one per line on stdout):
 //!   {"text": "...", "style_edition": 2015, "edition": 2021, "kv": [["k","v"],...], "widths": [..], "full": false}
-//!   -> {"r": [[status, hash], ...]}            (status: "ok" | "parse" | "err" | "panic")
+//!   -> {"r": [[status, hash], ...]}            (status: "ok" | "ok-contained-panic" | "parse" | "err" | "panic")
 //!   with "full": true -> {"r": [[status, hash, text], ...]}
 #![feature(rustc_private)]
 extern crate rustc_driver;
@@ -39,6 +39,8 @@ fn hash64(s: &str) -> u64 {
     h
 }
 
+static PANICS: std::sync::atomic::AtomicUsize = std::sync::atomic::AtomicUsize::new(0);
+
 fn run(text: &str, se: u64, ed: u64, kv: &[(String, String)], width: u64) -> (&'static str, String) {
     let mut c = Config::default_for_possible_style_edition(Some(style_edition(se)), None, None);
     c.set().style_edition(style_edition(se));
@@ -51,21 +53,28 @@ fn run(text: &str, se: u64, ed: u64, kv: &[(String, String)], width: u64) -> (&'
         c.override_value(k, v);
     }
     let mut out: Vec<u8> = Vec::new();
+    let before = PANICS.load(std::sync::atomic::Ordering::SeqCst);
     let res = panic::catch_unwind(AssertUnwindSafe(|| {
         let mut session = Session::new(c, Some(&mut out));
         let r = session.format(Input::Text(text.to_string()));
         (r.is_ok(), session.has_parsing_errors())
     }));
+    let contained = PANICS.load(std::sync::atomic::Ordering::SeqCst) != before;
     match res {
         Err(_) => ("panic", String::new()),
         Ok((false, _)) => ("err", String::from_utf8_lossy(&out).into_owned()),
         Ok((true, true)) => ("parse", String::from_utf8_lossy(&out).into_owned()),
+        // the pinned release panicked while formatting this input and contained the panic (macro
+        // formatting): it did not "format without error", the text it left behind is not a reference
+        Ok((true, false)) if contained => ("ok-contained-panic", String::from_utf8_lossy(&out).into_owned()),
         Ok((true, false)) => ("ok", String::from_utf8_lossy(&out).into_owned()),
     }
 }
 
 fn main() {
-    panic::set_hook(Box::new(|_| {}));
+    panic::set_hook(Box::new(|_| {
+        PANICS.fetch_add(1, std::sync::atomic::Ordering::SeqCst);
+    }));
     let stdin = std::io::stdin();
     // rustfmt echoes a crate-level `#![rustfmt::skip]` standard input straight to the process's
     // stdout: keep the protocol on a private descriptor and send fd 1 to /dev/null
